@@ -202,6 +202,95 @@ structure PInv {α : Type} (before : α → α → Bool) (pivot : α) (lo hi : N
   sr : ∃ (s : Nat) (x : α), lo ≤ s ∧ (s : Int) ≤ right ∧ a[s]? = some x ∧ before pivot x = false
   prog : (lo < left ∧ right < hi) ∨ ∃ (p : Nat) (x : α), left ≤ p ∧ (p : Int) ≤ right ∧ a[p]? = some x ∧ before x pivot = false ∧ before pivot x = false
 
+/-- `r` is `a` with the positions `[lo, hi]` permuted (an injective index map `σ` on the range), nothing else touched -/
+structure RPerm {α : Type} (lo hi : Nat) (a r : Array α) : Prop where
+  size : r.size = a.size
+  frame : ∀ k, k < lo ∨ hi < k → r[k]? = a[k]?
+  perm : ∃ σ : Nat → Nat, (∀ k, lo ≤ k → k ≤ hi → lo ≤ σ k ∧ σ k ≤ hi) ∧
+          (∀ k k', lo ≤ k → k ≤ hi → lo ≤ k' → k' ≤ hi → σ k = σ k' → k = k') ∧
+          (∀ k, lo ≤ k → k ≤ hi → r[k]? = a[σ k]?)
+
+theorem RPerm.refl {α : Type} (lo hi : Nat) (a : Array α) : RPerm lo hi a a :=
+  ⟨rfl, fun _ _ => rfl, ⟨id, fun k h1 h2 => ⟨h1, h2⟩, fun _ _ _ _ _ _ h => h, fun _ _ _ => rfl⟩⟩
+
+theorem RPerm.trans {α : Type} {lo hi : Nat} {a b c : Array α} (h1 : RPerm lo hi a b) (h2 : RPerm lo hi b c) :
+    RPerm lo hi a c := by
+  obtain ⟨σ, hs1, hs2, hs3⟩ := h1.perm
+  obtain ⟨τ, ht1, ht2, ht3⟩ := h2.perm
+  refine ⟨by rw [h2.size, h1.size], fun k hk => by rw [h2.frame k hk, h1.frame k hk], ⟨fun k => σ (τ k), ?_, ?_, ?_⟩⟩
+  · intro k hk1 hk2
+    obtain ⟨a1, a2⟩ := ht1 k hk1 hk2
+    exact hs1 _ a1 a2
+  · intro k k' hk1 hk2 hk1' hk2' heq
+    obtain ⟨a1, a2⟩ := ht1 k hk1 hk2
+    obtain ⟨b1, b2⟩ := ht1 k' hk1' hk2'
+    exact ht2 k k' hk1 hk2 hk1' hk2' (hs2 _ _ a1 a2 b1 b2 heq)
+  · intro k hk1 hk2
+    obtain ⟨a1, a2⟩ := ht1 k hk1 hk2
+    rw [ht3 k hk1 hk2, hs3 _ a1 a2]
+
+/-- a permutation of a sub-range is a permutation of the range -/
+theorem RPerm.mono {α : Type} {lo hi lo' hi' : Nat} {a r : Array α} (h : RPerm lo' hi' a r) (hl : lo ≤ lo') (hh : hi' ≤ hi) :
+    RPerm lo hi a r := by
+  obtain ⟨σ, hs1, hs2, hs3⟩ := h.perm
+  refine ⟨h.size, fun k hk => h.frame k (by omega), ⟨fun k => if lo' ≤ k ∧ k ≤ hi' then σ k else k, ?_, ?_, ?_⟩⟩
+  · intro k hk1 hk2
+    by_cases hin : lo' ≤ k ∧ k ≤ hi'
+    · simp only [if_pos hin]
+      obtain ⟨a1, a2⟩ := hs1 k hin.1 hin.2
+      omega
+    · simp only [if_neg hin]; omega
+  · intro k k' hk1 hk2 hk1' hk2' heq
+    by_cases hin : lo' ≤ k ∧ k ≤ hi'
+    · by_cases hin' : lo' ≤ k' ∧ k' ≤ hi'
+      · simp only [if_pos hin, if_pos hin'] at heq
+        exact hs2 k k' hin.1 hin.2 hin'.1 hin'.2 heq
+      · simp only [if_pos hin, if_neg hin'] at heq
+        obtain ⟨a1, a2⟩ := hs1 k hin.1 hin.2
+        omega
+    · by_cases hin' : lo' ≤ k' ∧ k' ≤ hi'
+      · simp only [if_neg hin, if_pos hin'] at heq
+        obtain ⟨a1, a2⟩ := hs1 k' hin'.1 hin'.2
+        omega
+      · simp only [if_neg hin, if_neg hin'] at heq
+        exact heq
+  · intro k hk1 hk2
+    by_cases hin : lo' ≤ k ∧ k ≤ hi'
+    · simp only [if_pos hin]; exact hs3 k hin.1 hin.2
+    · simp only [if_neg hin]; exact h.frame k (by omega)
+
+theorem RPerm.swap {α : Type} (lo hi : Nat) (a : Array α) (i j : Nat) (hi1 : lo ≤ i) (hi2 : i ≤ hi) (hj1 : lo ≤ j) (hj2 : j ≤ hi)
+    (his : i < a.size) (hjs : j < a.size) : RPerm lo hi a (a.swapIfInBounds i j) := by
+  refine ⟨by simp, fun k hk => ?_, ⟨fun k => if j = k then i else if i = k then j else k, ?_, ?_, ?_⟩⟩
+  · rw [swap_getElem? a i j k his hjs, if_neg (by omega), if_neg (by omega)]
+  · intro k hk1 hk2
+    simp only
+    split
+    · omega
+    · split <;> omega
+  · intro k k' hk1 hk2 hk1' hk2' heq
+    simp only at heq
+    split at heq <;> split at heq <;> (try split at heq) <;> (try split at heq) <;> omega
+  · intro k hk1 hk2
+    rw [swap_getElem? a i j k his hjs]
+    simp only
+    split
+    · rfl
+    · split <;> rfl
+
+/-- a predicate that holds on a super-range of a permuted range still holds there afterwards -/
+theorem RPerm.transfer {α : Type} {lo' hi' : Nat} {a r : Array α} (h : RPerm lo' hi' a r) (lo hi : Nat) (hl : lo ≤ lo') (hh : hi' ≤ hi)
+    (P : α → Prop) (hP : ∀ k x, lo ≤ k → k ≤ hi → a[k]? = some x → P x) :
+    ∀ k x, lo ≤ k → k ≤ hi → r[k]? = some x → P x := by
+  obtain ⟨σ, hs1, _, hs3⟩ := h.perm
+  intro k x hk1 hk2 hx
+  by_cases hin : lo' ≤ k ∧ k ≤ hi'
+  · rw [hs3 k hin.1 hin.2] at hx
+    obtain ⟨a1, a2⟩ := hs1 k hin.1 hin.2
+    exact hP _ x (by omega) (by omega) hx
+  · rw [h.frame k (by omega)] at hx
+    exact hP k x hk1 hk2 hx
+
 /-- what the partition loop establishes -/
 structure PPost {α : Type} (before : α → α → Bool) (pivot : α) (lo hi : Nat) (a a' : Array α) (l' : Nat) (r' : Int) : Prop where
   size : a'.size = a.size
@@ -213,6 +302,7 @@ structure PPost {α : Type} (before : α → α → Bool) (pivot : α) (lo hi : 
   rprog : r' < hi
   lbound : l' ≤ hi + 1
   rbound : (lo : Int) - 1 ≤ r'
+  rperm : RPerm lo hi a a'
 
 /-- ☆ partition step for a strict weak order: from the invariant the loop of the model terminates within its fuel, never
     indexes outside `[lo, hi]`, only permutes inside `[lo, hi]`, and returns `left' > lo`, `right' < hi`, `right' ≤ left'`
@@ -306,7 +396,8 @@ theorem partitionLoop_spec {α : Type} (before : α → α → Bool) (hswo : SWO
         rw [hsw k hl1sz hr1sz, if_neg (by omega), if_neg (by omega)]
       by_cases hdone : ((left1 + 1 : Nat) : Int) ≥ right1 - 1
       · rw [if_pos hdone]
-        refine ⟨_, _, _, rfl, ⟨by simp, frame2, small2, large2, by omega, by omega, by omega, by omega, by omega⟩⟩
+        refine ⟨_, _, _, rfl, ⟨by simp, frame2, small2, large2, by omega, by omega, by omega, by omega, by omega,
+          RPerm.swap lo hi a left1 right1.toNat (by omega) (by omega) (by omega) (by omega) hl1sz hr1sz⟩⟩
       · rw [if_neg hdone]
         have hinv' : PInv before pivot lo hi (a.swapIfInBounds left1 right1.toNat) (left1 + 1) (right1 - 1) := by
           refine ⟨by omega, by omega, by simpa using hhsz, small2, large2, ?_, ?_, Or.inl ⟨by omega, by omega⟩⟩
@@ -317,7 +408,8 @@ theorem partitionLoop_spec {α : Type} (before : α → α → Bool) (hswo : SWO
             rw [hsw _ hl1sz hr1sz, if_neg (by omega), if_pos rfl, hxr]
         obtain ⟨a', l', r', hres, hpost⟩ := ih _ _ _ hinv' (by omega)
         refine ⟨a', l', r', hres, ⟨by rw [hpost.size]; simp, fun k hk => by rw [hpost.frame k hk, frame2 k hk],
-          hpost.small, hpost.large, hpost.cross, hpost.lprog, hpost.rprog, hpost.lbound, hpost.rbound⟩⟩
+          hpost.small, hpost.large, hpost.cross, hpost.lprog, hpost.rprog, hpost.lbound, hpost.rbound,
+          RPerm.trans (RPerm.swap lo hi a left1 right1.toNat (by omega) (by omega) (by omega) (by omega) hl1sz hr1sz) hpost.rperm⟩⟩
     · rw [if_neg hle]
       -- no swap in this iteration: possible only after an earlier swap (otherwise the common sentinel forces left1 ≤ right1)
       have hprog : lo < left ∧ right < hi := by
@@ -332,7 +424,8 @@ theorem partitionLoop_spec {α : Type} (before : α → α → Bool) (hswo : SWO
             (by simpa using hp3) hp5 (by omega)
           rw [hr] at hk2; simp only [Res.ok.injEq] at hk2; subst hk2
           omega
-      refine ⟨a, left1, right1, rfl, ⟨rfl, fun _ _ => rfl, small1, large1, by omega, by omega, by omega, by omega, by omega⟩⟩
+      refine ⟨a, left1, right1, rfl, ⟨rfl, fun _ _ => rfl, small1, large1, by omega, by omega, by omega, by omega, by omega,
+        RPerm.refl lo hi a⟩⟩
 
 theorem medianOfThree_mem {α : Type} (le : α → α → Bool) (x y z : α) :
     medianOfThree le x y z = x ∨ medianOfThree le x y z = y ∨ medianOfThree le x y z = z := by
@@ -361,5 +454,146 @@ theorem partition_step {α : Type} (le before : α → α → Bool) (hswo : SWO 
       ⟨p, pivot, hp1, hp2, hp3, hswo.irr _⟩, ⟨p, pivot, hp1, by omega, hp3, hswo.irr _⟩,
       Or.inr ⟨p, pivot, hp1, by omega, hp3, hswo.irr _, hswo.irr _⟩⟩
   · omega
+
+/-- no element of `[lo, hi]` is strictly before an earlier one -/
+def SortedOn {α : Type} (before : α → α → Bool) (r : Array α) (lo hi : Nat) : Prop :=
+  ∀ i j x y, lo ≤ i → i < j → j ≤ hi → r[i]? = some x → r[j]? = some y → before y x = false
+
+/-- ☆ `sort-help` for a strict weak order: with fuel `≥ hi - lo + 1` it returns (no `in` out of range, no fuel exhaustion),
+    permutes only `[lo, hi]`, and leaves that range ordered. -/
+theorem sortHelp_spec {α : Type} (le before : α → α → Bool) (hswo : SWO before) (fuel : Nat) (a : Array α) (lo : Nat) (hi : Int)
+    (hsz : hi < a.size) (hf : (hi - lo).toNat + 1 ≤ fuel) :
+    ∃ r, sortHelp le before fuel a lo hi = .ok r ∧ RPerm lo hi.toNat a r ∧ SortedOn before r lo hi.toNat := by
+  induction fuel generalizing a lo hi with
+  | zero => omega
+  | succ n ih =>
+    unfold sortHelp
+    by_cases hlt : (lo : Int) < hi
+    · rw [if_pos hlt, if_neg (by omega)]
+      obtain ⟨hiN, rfl⟩ : ∃ m : Nat, hi = m := ⟨hi.toNat, by omega⟩
+      have hlt' : lo < hiN := by omega
+      have hsz' : hiN < a.size := by omega
+      have e1 : ((lo : Nat) : Int).toNat = lo := by simp
+      have e2 : (((lo : Nat) : Int) + ((hiN : Nat) : Int)) / 2 = (((lo + hiN) / 2 : Nat) : Int) := by omega
+      have e3 : ((hiN : Nat) : Int).toNat = hiN := by simp
+      rw [e2]
+      simp only [Int.toNat_natCast]
+      rw [Array.getElem?_eq_getElem (by omega : lo < a.size), Array.getElem?_eq_getElem (by omega : (lo + hiN) / 2 < a.size),
+        Array.getElem?_eq_getElem hsz']
+      simp only
+      have hps := partition_step le before hswo a lo hiN hlt' hsz'
+      simp only at hps
+      generalize medianOfThree le a[lo] a[(lo + hiN) / 2] a[hiN] = pivot at hps ⊢
+      obtain ⟨a1, l, r', hpl, hpost⟩ := hps
+      rw [hpl]
+      simp only
+      have hs1 : a1.size = a.size := hpost.size
+      have hcross := hpost.cross
+      have hlprog := hpost.lprog
+      have hrprog := hpost.rprog
+      have hlbound := hpost.lbound
+      have hrbound := hpost.rbound
+      -- first recursive call
+      have hrec1 : ∃ a2, (if (lo : Int) < r' then sortHelp le before n a1 lo r' else Res.ok a1) = .ok a2 ∧
+          RPerm lo r'.toNat a1 a2 ∧ SortedOn before a2 lo r'.toNat ∧ (∀ k : Nat, r' < (k : Int) → a2[k]? = a1[k]?) := by
+        by_cases h1 : (lo : Int) < r'
+        · rw [if_pos h1]
+          obtain ⟨a2, g1, g2, g3⟩ := ih a1 lo r' (by omega) (by omega)
+          exact ⟨a2, g1, g2, g3, fun k hk => g2.frame k (by omega)⟩
+        · rw [if_neg h1]
+          exact ⟨a1, rfl, RPerm.refl _ _ _, fun i j x y h1 h2 h3 _ _ => by omega, fun _ _ => rfl⟩
+      obtain ⟨a2, g1, P1, S1, hframe1⟩ := hrec1
+      rw [g1]
+      simp only
+      have hs2 : a2.size = a.size := by rw [P1.size, hs1]
+      have hrec2 : ∃ a3, (if (l : Int) < (hiN : Int) then sortHelp le before n a2 l hiN else Res.ok a2) = .ok a3 ∧
+          RPerm l hiN a2 a3 ∧ SortedOn before a3 l hiN := by
+        by_cases h2 : (l : Int) < (hiN : Int)
+        · rw [if_pos h2]
+          obtain ⟨a3, g1, g2, g3⟩ := ih a2 l hiN (by omega) (by omega)
+          simp only [Int.toNat_natCast] at g2 g3
+          exact ⟨a3, g1, g2, g3⟩
+        · rw [if_neg h2]
+          exact ⟨a2, rfl, RPerm.refl _ _ _, fun i j x y h1 h2 h3 _ _ => by omega⟩
+      obtain ⟨a3, g2, P2, S2⟩ := hrec2
+      rw [g2]
+      have hframe2 : ∀ k, k < l → a3[k]? = a2[k]? := fun k hk => P2.frame k (Or.inl hk)
+      refine ⟨a3, rfl, ?_, ?_⟩
+      · exact RPerm.trans hpost.rperm (RPerm.trans (RPerm.mono P1 (Nat.le_refl _) (by omega)) (RPerm.mono P2 (by omega) (Nat.le_refl _)))
+      · intro i j x y hi1 hij hj2 hx hy
+        by_cases hcase : r' < (l : Int)
+        · -- the two recursive ranges are disjoint
+          have small2 : ∀ k x, lo ≤ k → k ≤ l - 1 → a2[k]? = some x → before pivot x = false :=
+            P1.transfer lo (l - 1) (Nat.le_refl _) (by omega) (fun x => before pivot x = false)
+              (fun k x h1 h2 h3 => hpost.small k x h1 (by omega) h3)
+          have small3 : ∀ k x, lo ≤ k → k < l → a3[k]? = some x → before pivot x = false := fun k x h1 h2 h3 => by
+            rw [hframe2 k h2] at h3
+            exact small2 k x h1 (by omega) h3
+          have large2 : ∀ (k : Nat) x, l ≤ k → k ≤ hiN → a2[k]? = some x → before x pivot = false := fun k x h1 h2 h3 => by
+            rw [hframe1 k (by omega)] at h3
+            exact hpost.large k x (by omega) h2 h3
+          have large3 : ∀ (k : Nat) x, r' < (k : Int) → k ≤ hiN → a3[k]? = some x → before x pivot = false := fun k x h1 h2 h3 => by
+            by_cases hkl : k < l
+            · rw [hframe2 k hkl, hframe1 k h1] at h3
+              exact hpost.large k x h1 h2 h3
+            · exact P2.transfer l hiN (Nat.le_refl _) (Nat.le_refl _) (fun x => before x pivot = false) large2 k x (by omega) h2 h3
+          by_cases hjr : (j : Int) ≤ r'
+          · rw [hframe2 i (by omega)] at hx
+            rw [hframe2 j (by omega)] at hy
+            exact S1 i j x y hi1 hij (by omega) hx hy
+          · by_cases hil : l ≤ i
+            · exact S2 i j x y hil hij hj2 hx hy
+            · exact hswo.negtrans y pivot x (large3 j y (by omega) hj2 hy) (small3 i x hi1 (by omega) hx)
+        · -- left' = right' = l: both recursive ranges contain position l
+          have hrl : r' = (l : Int) := by omega
+          subst hrl
+          simp only [Int.toNat_natCast] at P1 S1
+          obtain ⟨σ, hσ1, hσ2, hσ3⟩ := P1.perm
+          have hl2 : l < a2.size := by omega
+          have hym : a2[l]? = some a2[l] := Array.getElem?_eq_getElem hl2
+          have claimC : ∀ k x, lo ≤ k → k < l → a2[k]? = some x → before pivot x = false := by
+            intro k x h1 h2 h3
+            obtain ⟨b1, b2⟩ := hσ1 k h1 (by omega)
+            by_cases hσk : σ k < l
+            · rw [hσ3 k h1 (by omega)] at h3
+              exact hpost.small _ x b1 hσk h3
+            · have hσl : σ l ≠ l := fun h => by
+                have := hσ2 k l h1 (by omega) (by omega) (Nat.le_refl _) (by omega)
+                omega
+              obtain ⟨c1, c2⟩ := hσ1 l (by omega) (Nat.le_refl _)
+              have hyml := hym
+              rw [hσ3 l (by omega) (Nat.le_refl _)] at hyml
+              have e1 := hpost.small (σ l) a2[l] c1 (by omega) hyml
+              have e2 := S1 k l x a2[l] h1 h2 (Nat.le_refl _) h3 hym
+              exact hswo.negtrans pivot a2[l] x e1 e2
+          by_cases hjl : j < l
+          · rw [hframe2 i (by omega)] at hx
+            rw [hframe2 j hjl] at hy
+            exact S1 i j x y hi1 hij (by omega) hx hy
+          · by_cases hil : l ≤ i
+            · exact S2 i j x y hil hij hj2 hx hy
+            · rw [hframe2 i (by omega)] at hx
+              obtain ⟨τ, hτ1, _, hτ3⟩ := P2.perm
+              obtain ⟨d1, d2⟩ := hτ1 j (by omega) hj2
+              rw [hτ3 j (by omega) hj2] at hy
+              by_cases hτj : τ j = l
+              · rw [hτj] at hy
+                exact S1 i l x y hi1 (by omega) (Nat.le_refl _) hx hy
+              · rw [hframe1 (τ j) (by omega)] at hy
+                exact hswo.negtrans y pivot x (hpost.large (τ j) y (by omega) d2 hy) (claimC i x hi1 (by omega) hx)
+    · rw [if_neg hlt]
+      refine ⟨a, rfl, RPerm.refl _ _ _, fun i j x y h1 h2 h3 _ _ => by omega⟩
+
+/-- ☆ `sort_perm_sorted`: for every strict weak order `before?` (and whatever `<=` is used to pick the median) `sort`
+    returns — within the model's fuel `length + 1`, never indexing outside the array — an ordered permutation of its input. -/
+theorem sort_sorted {α : Type} (le before : α → α → Bool) (hswo : SWO before) (a : Array α) :
+    ∃ r, sort le before a = .ok r ∧ Array.Perm r a ∧ r.size = a.size ∧
+      ∀ i j (hij : i < j) (hj : j < r.size), before r[j] (r[i]'(by omega)) = false := by
+  obtain ⟨r, h1, h2, h3⟩ := sortHelp_spec le before hswo (a.size + 1) a 0 ((a.size : Int) - 1) (by omega) (by omega)
+  have h1' : sort le before a = .ok r := h1
+  have hp := sort_perm le before a r h1'
+  refine ⟨r, h1', hp, h2.size, fun i j hij hj => ?_⟩
+  have hsz := h2.size
+  exact h3 i j r[i] r[j] (Nat.zero_le _) hij (by omega) (Array.getElem?_eq_getElem (by omega)) (Array.getElem?_eq_getElem hj)
 
 end JanetModel.Lib.Sort
